@@ -371,7 +371,8 @@ BOUNDARY_OPS = [
     ["set_auto_ack", False, 0], ["set_auto_ack", True, 5], ["set_auto_ack", True, 6], ["set_auto_ack", False, -1],
     ["dynamic_payloads", False], ["dynamic_payloads", True], ["dynamic_payloads", 0x01], ["dynamic_payloads", {"t": "list", "v": [0, 1]}],
     ["set_dynamic_payloads", False, 0], ["set_dynamic_payloads", True, 3], ["set_dynamic_payloads", False, {"t": "none"}],
-    ["set_dynamic_payloads", True, 6],
+    ["set_dynamic_payloads", True, 6], ["set_dynamic_payloads", 1, {"t": "none"}], ["set_dynamic_payloads", 0, {"t": "none"}],
+    ["set_dynamic_payloads", 1, 4], ["set_auto_ack", 1, {"t": "none"}], ["set_auto_ack", 0, {"t": "none"}], ["set_auto_ack", 1, 2],
     ["payload_length", 1], ["payload_length", 32], ["payload_length", 0], ["payload_length", 33],
     ["payload_length", {"t": "list", "v": [5, 0, 40, -3]}],
     ["set_payload_length", 8, 0], ["set_payload_length", 0, 1], ["set_payload_length", 33, 5], ["set_payload_length", 10, 6],
@@ -423,13 +424,14 @@ def strategy(drv="full"):
                        lambda t: {"t": "tuple", "v": list(t)}))
     plen = st.one_of(anyint, st.lists(st.integers(-2, 40), max_size=8).map(lambda v: {"t": "list", "v": v}),
                      st.just({"t": "none"}))
+    boolish = st.one_of(st.booleans(), st.sampled_from([0, 1]))  # `enable` is documented as bool and coerced with bool(): 0/1 are the usual stand-ins
     ops = [
         st.tuples(st.just("channel"), anyint), st.tuples(st.just("data_rate"), st.sampled_from([1, 2, 250, 0, 3, 1000])),
         st.tuples(st.just("pa_level"), pa), st.tuples(st.just("crc"), st.integers(-2, 4)),
         st.tuples(st.just("address_length"), st.integers(0, 7)), st.tuples(st.just("ard"), anyint),
         st.tuples(st.just("arc"), anyint), st.tuples(st.just("set_auto_retries"), anyint, anyint),
-        st.tuples(st.just("auto_ack"), bits), st.tuples(st.just("set_auto_ack"), st.booleans(), pipe_n),
-        st.tuples(st.just("dynamic_payloads"), bits), st.tuples(st.just("set_dynamic_payloads"), st.booleans(), pipe_n),
+        st.tuples(st.just("auto_ack"), bits), st.tuples(st.just("set_auto_ack"), boolish, pipe_n),
+        st.tuples(st.just("dynamic_payloads"), bits), st.tuples(st.just("set_dynamic_payloads"), boolish, pipe_n),
         st.tuples(st.just("payload_length"), plen), st.tuples(st.just("set_payload_length"), anyint, pipe_n),
         st.tuples(st.just("ack"), st.booleans()), st.tuples(st.just("allow_ask_no_ack"), st.booleans()),
         st.tuples(st.just("interrupt_config"), st.booleans(), st.booleans(), st.booleans()),
